@@ -231,6 +231,7 @@ def serialiser_pairs(r, tier):
             if charsets[1] == "gbk" and (i > 1 or j != 4):
                 continue
             events = [SER_EVENTS[i], SER_EVENTS[j]]
+            judge_serialiser_pair({"stuck": False, "results": [None, None]}, events, charsets)  # warm-up: lazily initialised state must not change the line trace between executions
 
             def on_exec(x):
                 r.count("evaluations")
